@@ -16,7 +16,7 @@ for pid in ids:
     funcs = sorted({t.split("@")[0] for t in targets if not t.startswith("lemma:")})
     nlem = sum(t.startswith("lemma:") for t in targets)
     if getattr(m, "deductive_extra", None):
-        funcs.append("finite-domain obligations (deductive_extra)")
+        funcs.append(getattr(m, "EXTRA_KIND", "finite-domain obligations (deductive_extra)"))
     if funcs or nlem:
         tech = ("contract-based deductive verification of the real source (pyvc: verification conditions generated from the AST of /repo on every run, "
                 "sidecar contracts, discharged by z3/cvc5) - under contract: " + ", ".join(funcs) + (f"; {nlem} SMT lemmas" if nlem else "") +
